@@ -5,6 +5,7 @@
 //!   c19 ps   <seed> <n>         PS key/message scenarios on both pairings
 //!   c19 pop  <seed> <n>         proofs of possession (relations + decisions) on both pairings
 //!   c19 vrf  <seed> <n>         ECVRF: test vectors, determinism, relations, rejections
+//!   c19 keys <seed>             degenerate keys/points: small-order ed25519 encodings, identity and non-subgroup BLS12-381 points
 //!   c19 bits <seed> <n>         single-bit perturbations of serialized signatures/keys/proofs/messages
 //!
 //! One JSON object per line.  Every implementation call runs under `guarded`.
@@ -651,6 +652,195 @@ fn bits_mode(seed: u64, n: u64, per: usize) {
     }
 }
 
+// ------------------------------------------------------------------ degenerate keys and points
+fn ed_p() -> BigUint { (BigUint::from(1u8) << 255) - BigUint::from(19u8) }
+
+/// canonical and non-canonical encodings of the 8 small-order points of ed25519
+fn small_order_encodings() -> Vec<(String, [u8; 32])> {
+    let mut out: Vec<(String, [u8; 32])> = Vec::new();
+    for (i, t) in dc::EIGHT_TORSION.iter().enumerate() {
+        let b = t.compress().to_bytes();
+        out.push((format!("torsion{}", i), b));
+        // the other sign bit: for x = 0 a non-canonical encoding of the same point
+        let mut f = b; f[31] ^= 0x80;
+        if !out.iter().any(|(_, x)| *x == f) && !dc::EIGHT_TORSION.iter().any(|q| q.compress().to_bytes() == f) { out.push((format!("torsion{}-signbit", i), f)); }
+        // y + p when it fits in 255 bits
+        let mut yb = b; let sign = yb[31] & 0x80; yb[31] &= 0x7f;
+        let y = BigUint::from_bytes_le(&yb);
+        if y < BigUint::from(19u8) {
+            let mut e = (y + ed_p()).to_bytes_le(); e.resize(32, 0);
+            let mut a = [0u8; 32]; a.copy_from_slice(&e);
+            for sb in [sign, sign ^ 0x80] { let mut c = a; c[31] |= sb; out.push((format!("torsion{}-y+p-sign{}", i, sb >> 7), c)); }
+        }
+    }
+    out
+}
+
+/// The forgery the model predicts for a key Y with 8*Y = 0 (theorem vrf_small_order_key_forgeable):
+/// Gamma = identity, c = hash_points(H, 0, k*B, k*H) with c*Y = 0 (grind k), s = k.
+fn forge_for_small_order_key(rng: &mut Rng, pk: &ecvrf::PublicKey, y: &EdwardsPoint, alpha: &[u8]) -> Option<ecvrf::Proof> {
+    use curve25519_dalek::traits::Identity;
+    let h = pk.hash_to_curve(alpha)?;
+    let id = EdwardsPoint::identity();
+    for _ in 0..2000 {
+        let mut kb = [0u8; 64]; kb.copy_from_slice(&rng.bytes(64));
+        let k = Scalar::from_bytes_mod_order_wide(&kb);
+        let c = ecvrf::hash_points(&[h.compress(), id.compress(), (&k * dc::ED25519_BASEPOINT_TABLE).compress(), (k * h).compress()]);
+        if c * y == id { return Some(ecvrf::Proof(id, c, k)); }
+    }
+    None
+}
+
+fn forge_report(rng: &mut Rng, pk: &ecvrf::PublicKey, y: &EdwardsPoint) -> J {
+    let alphas: Vec<Vec<u8>> = vec![vec![], b"c19".to_vec(), rng.bytes(40)];
+    let mut res = Vec::new();
+    for a in &alphas {
+        match forge_for_small_order_key(rng, pk, y, a) {
+            None => res.push(json!({"alpha": hex(a), "forged": false})),
+            Some(pf) => res.push(json!({"alpha": hex(a), "forged": true, "proof": hex(&to_bytes(&pf)),
+                                        "accepted": jb(g(|| pk.verify(&pf, a))), "beta": hex(&pf.to_hash())})),
+        }
+    }
+    json!(res)
+}
+
+fn keys_mode(seed: u64) {
+    use curve25519_dalek::traits::Identity;
+    let mut rng = Rng::new(seed ^ 0x6b65);
+    // (1) small-order / non-canonical encodings as VRF public keys
+    for (label, bytes) in small_order_encodings() {
+        let parsed = from_bytes::<ecvrf::PublicKey, _>(&mut &bytes[..]);
+        let pt = CompressedEdwardsY(bytes).decompress();
+        let mut r = json!({"k": "vrfkey", "label": label, "bytes": hex(&bytes), "decompresses": pt.is_some(),
+                           "small_order": pt.map(|p| p.is_small_order()), "parsed": parsed.is_ok()});
+        if let (Ok(pk), Some(y)) = (parsed, pt) {
+            r["verify_key"] = json!(pk.verify_key());
+            r["forgery"] = forge_report(&mut rng, &pk, &y);
+        }
+        println!("{}", r);
+    }
+    // the identity key can be constructed without deserialization (`#[derive(Default)]`)
+    {
+        let pk = ecvrf::PublicKey::default();
+        let id = EdwardsPoint::identity();
+        println!("{}", json!({"k": "vrfdefault", "verify_key": pk.verify_key(), "reparses": from_bytes::<ecvrf::PublicKey, _>(&mut &to_bytes(&pk)[..]).is_ok(),
+                              "forgery": forge_report(&mut rng, &pk, &id)}));
+    }
+    // (2) small-order Gamma inside proofs for an honest key: decisions must equal the model's equation and be rejections
+    {
+        let skb = rng.bytes(32);
+        let sk = ecvrf::SecretKey::from_bytes(&skb).unwrap();
+        let pk = ecvrf::PublicKey::from(&sk);
+        let pkb = to_bytes(&pk);
+        let y = CompressedEdwardsY::from_slice(&pkb).unwrap().decompress().unwrap();
+        let alpha = rng.bytes(20);
+        let honest = sk.prove(&pk, &alpha);
+        let h = my_h2c(&pkb, &alpha).unwrap();
+        for (i, t) in dc::EIGHT_TORSION.iter().enumerate() {
+            let mut kb = [0u8; 64]; kb.copy_from_slice(&rng.bytes(64));
+            let k = Scalar::from_bytes_mod_order_wide(&kb);
+            let cg = ecvrf::hash_points(&[h.compress(), t.compress(), (&k * dc::ED25519_BASEPOINT_TABLE).compress(), (k * h).compress()]);
+            let tries: Vec<(&str, Scalar, Scalar)> = vec![("honest-c-s", honest.1, honest.2), ("zero", Scalar::ZERO, Scalar::ZERO),
+                                                          ("c0-srand", Scalar::ZERO, k), ("grind", cg, k)];
+            let mut res = Vec::new();
+            for (lab, c, s) in tries {
+                let mut pb = t.compress().to_bytes().to_vec(); pb.extend_from_slice(&c.to_bytes()[..16]); pb.extend_from_slice(&s.to_bytes());
+                let q = from_bytes::<ecvrf::Proof, _>(&mut &pb[..]);
+                let u = &s * dc::ED25519_BASEPOINT_TABLE - c * y;
+                let v = s * h - c * t;
+                let model = c == my_hash_points(&[h, *t, u, v]);
+                res.push(match q {
+                    Err(_) => json!({"try": lab, "parsed": false, "model": model}),
+                    Ok(q) => json!({"try": lab, "parsed": true, "model": model, "accepted": jb(g(|| pk.verify(&q, &alpha))),
+                                    "beta_is_identity_hash": q.to_hash().to_vec() == my_beta(&EdwardsPoint::identity())}),
+                });
+            }
+            println!("{}", json!({"k": "vrfgamma", "torsion": i, "gamma": hex(&t.compress().to_bytes()), "pk": hex(&pkb), "alpha": hex(&alpha), "tries": res}));
+        }
+    }
+    // (3) BLS / PS: identity and not-in-subgroup encodings
+    {
+        type P = Bls12;
+        use ark_ec::AffineRepr;
+        use ark_serialize::CanonicalSerialize;
+        let id1 = to_bytes(&<P as Pairing>::G1::zero_point());
+        let id2 = to_bytes(&<P as Pairing>::G2::zero_point());
+        let pk_id = from_bytes::<agg::PublicKey<P>, _>(&mut &id2[..]).ok();
+        let sig_id = from_bytes::<agg::Signature<P>, _>(&mut &id1[..]).ok();
+        let sk0 = from_bytes::<agg::SecretKey<P>, _>(&mut &to_bytes(&s_u64(0))[..]).ok();
+        let skv = s_rand_nz(&mut rng);
+        let sk = mk_sk::<P>(&skv);
+        let pk = agg::PublicKey::<P>::from_secret(&sk);
+        let m1 = b"message one".to_vec(); let m2 = b"message two".to_vec();
+        let mut r = json!({"k": "blsid", "pk_identity_parsed": pk_id.is_some(), "sig_identity_parsed": sig_id.is_some(), "sk_zero_parsed": sk0.is_some()});
+        if let Some(s0) = sig_id {
+            // the identity signature under an honest (non-identity) key must be rejected
+            r["identity_sig_honest_key"] = jb(g(|| pk.verify(&m1, s0)));
+            if let Some(p0) = pk_id {
+                r["identity_sig_identity_key"] = json!([jb(g(|| p0.verify(&m1, s0))), jb(g(|| p0.verify(&m2, s0)))]);
+                let honest = sk.sign(&m1);
+                r["identity_key_honest_sig"] = jb(g(|| p0.verify(&m1, honest)));
+                // an (m2, identity key) pair added to a valid aggregate
+                r["aggregate_with_identity_pair"] = jb(g(|| agg::verify_aggregate_sig(&[(&m1[..], pk), (&m2[..], p0)], honest)));
+                r["trusted_keys_with_identity_key"] = jb(g(|| agg::verify_aggregate_sig_trusted_keys(&m1, &[pk, p0], honest)));
+                let ro = RandomOracle::domain(b"ctx");
+                if let Some(z) = sk0 {
+                    r["sk_zero_pk_is_identity"] = json!(agg::PublicKey::<P>::from_secret(&z) == p0);
+                    let mut csprng = HR(rng.clone());
+                    let pf = z.prove(&mut csprng, &mut ro.split());
+                    r["pop_for_identity_key"] = jb(g(|| p0.check_proof(&mut ro.split(), &pf)));
+                }
+            }
+        }
+        println!("{}", r);
+        // points on the curve but outside the prime-order subgroup
+        let mut g1 = Vec::new(); let mut g2 = Vec::new();
+        let mut tries = 0;
+        while (g1.len() < 4 || g2.len() < 4) && tries < 400 {
+            tries += 1;
+            let x = ark_bls12_381::Fq::from(rng.next());
+            if g1.len() < 4 {
+                if let Some(p) = ark_bls12_381::G1Affine::get_point_from_x_unchecked(x, rng.chance(1, 2)) {
+                    if !p.is_in_correct_subgroup_assuming_on_curve() && !p.is_zero() {
+                        let mut b = Vec::new(); p.serialize_compressed(&mut b).unwrap();
+                        let sig = from_bytes::<agg::Signature<P>, _>(&mut &b[..]).ok();
+                        let mut b2 = b.clone(); b2.extend_from_slice(&b);
+                        let ps = from_bytes::<ps_sig::Signature<P>, _>(&mut &b2[..]).ok();
+                        g1.push(json!({"bytes": hex(&b), "bls_sig_parsed": sig.is_some(), "ps_sig_parsed": ps.is_some(),
+                                       "bls_verify": sig.map(|s| jb(g(|| pk.verify(&m1, s))))}));
+                    }
+                }
+            }
+            if g2.len() < 4 {
+                let x2 = ark_bls12_381::Fq2::new(x, ark_bls12_381::Fq::from(rng.next()));
+                if let Some(p) = ark_bls12_381::G2Affine::get_point_from_x_unchecked(x2, rng.chance(1, 2)) {
+                    if !p.is_in_correct_subgroup_assuming_on_curve() && !p.is_zero() {
+                        let mut b = Vec::new(); p.serialize_compressed(&mut b).unwrap();
+                        let k = from_bytes::<agg::PublicKey<P>, _>(&mut &b[..]).ok();
+                        g2.push(json!({"bytes": hex(&b), "bls_key_parsed": k.is_some(),
+                                       "bls_verify": k.map(|k| jb(g(|| k.verify(&m1, sk.sign(&m1)))))}));
+                    }
+                }
+            }
+        }
+        println!("{}", json!({"k": "subgroup", "g1": g1, "g2": g2}));
+        // PS: signatures with an identity component
+        let sc = gen_ps(&mut rng, 2, 2, true);
+        let psk = ps_sig::SecretKey::<P> { g: <P as Pairing>::G1::one_point(), g_tilda: <P as Pairing>::G2::one_point(), ys: sc.ys.clone(), x: sc.x };
+        let ppk = ps_sig::PublicKey::<P>::from(&psk);
+        let km = ps_sig::KnownMessage::<P>(sc.ms.clone());
+        let mut csprng = HR(rng.clone());
+        let good = psk.sign_known_message(&km, &mut csprng).unwrap();
+        let z1 = <P as Pairing>::G1::zero_point();
+        let variants = vec![("a=0,b=0", ps_sig::Signature::<P>(z1, z1)), ("a=0", ps_sig::Signature::<P>(z1, good.1)), ("b=0", ps_sig::Signature::<P>(good.0, z1))];
+        let res: Vec<J> = variants.iter().map(|(l, s)| {
+            let rt: Option<ps_sig::Signature<P>> = conv(s);
+            json!({"sig": l, "reparses": rt.is_some(), "accepted": jb(g(|| ppk.verify(s, &km)))})
+        }).collect();
+        println!("{}", json!({"k": "psid", "good": jb(g(|| ppk.verify(&good, &km))), "variants": res}));
+    }
+}
+
 fn main() {
     hlib::quiet_panics();
     let a: Vec<String> = std::env::args().collect();
@@ -664,6 +854,7 @@ fn main() {
         "pop" => pop_mode(seed, n),
         "vrf" => vrf_mode(seed, n, if extra == 0 { 48 } else { extra }),
         "bits" => bits_mode(seed, n, if extra == 0 { 48 } else { extra }),
+        "keys" => keys_mode(seed),
         _ => { eprintln!("usage: c19 bls|ps|pop|vrf|bits <seed> <n> [extra]"); std::process::exit(2) }
     }
 }
